@@ -161,8 +161,13 @@ class Scheduler:
         if lossless or x >= self.p_loss + self.p_dup:
             self.flight.pop(i)
         self.log.append(('deliver', dst))
-        self.delivered.append((dst, src, data))
+        runs = getattr(self.w, 'handler_runs', None)
+        if runs is not None:
+            runs.clear()
         reply = self.w.dispatch(dst, data, src)
+        # "delivered" = it reached an IKE_SA that executed it (a datagram for a not yet registered successor is merely dropped)
+        if runs is None or runs:
+            self.delivered.append((dst, src, data))
         self.emit(dst, reply)
         return (dst, src, data, reply)
 
